@@ -330,6 +330,8 @@ def work_c15(prop, tier, seed, widx, nworkers):
                         m[1] = None
         if rng.random() < 0.25:
             add_second_rec(prog, rng)
+        if rng.random() < 0.3:
+            add_dest_reader(prog, rng)      # Input(Dest) next to RecurrentSubGraph(..., dest_node=Dest) in one node
         prog['tags'] = sorted(gen.analyze(prog))
         case = {'prog': prog, 'what': 'build'}
         fs = replay_case(case, rng=rng)
